@@ -225,8 +225,10 @@ func (d *c13pDrv) feed(bad bool) (*c13hViol, string) {
 	if d.w == nil {
 		return nil, ""
 	}
-	// garbage only while the reload in progress cannot carry a generation the installed set lacks
-	if bad && d.genDisk != d.gen(d.lo.Load()) {
+	// garbage also while the reload in progress would carry a generation the installed set lacks: a
+	// failed reload must change nothing, the ClientConf generation included (VERIF_C13_NOBADBUMP=1
+	// restores the restriction the check had before the handler was repaired)
+	if bad && d.genDisk != d.gen(d.lo.Load()) && os.Getenv("VERIF_C13_NOBADBUMP") != "" {
 		bad = false
 	}
 	w, v := d.w, d.obs
